@@ -10,7 +10,11 @@ Inductive case09 :=
    byte for byte) [complete_new] says whether the content found is a complete well-formed new history *)
 | KFail (name : string) (is_save : bool) (k : Z) (old new observed : option bytes) (success : bool) (complete_new : bool) (tmp_left : bool)
 (* the process is killed at a system call (possibly after a short write) *)
-| KCrash (name : string) (point : string) (old new observed : option bytes) (complete_new : bool).
+| KCrash (name : string) (point : string) (old new observed : option bytes) (complete_new : bool)
+(* a writer was killed with its temporary file fully written; a later, shorter save then completes in the same directory.
+   [got]: what the target holds afterwards (notebook: its bytes; history: the queries of its entries, or nothing if it does
+   not parse); [want]: the same save run on a clean directory holding the same target content *)
+| KAfter (name : string) (point : string) (got want : list bytes) (reported_ok : bool).
 
 Definition obytes_eqb (a b : option bytes) : bool := option_eqb bytes_eqb a b.
 
@@ -36,6 +40,9 @@ Definition check_case (c : case09) : report :=
                  | None, _ => VOk
                  end in
       {| r_verdict := v; r_trivial := false; r_tags := ["fail"; name] |}
+  | KAfter name point got want ok =>
+      {| r_verdict := if ok && list_eqb bytes_eqb got want then VOk else VPredFail ("left_over_temp_harmless/" ++ name);
+         r_trivial := false; r_tags := ["after-crash"; name] |}
   | KCrash name point old new observed complete_new =>
       let is_old := obytes_eqb observed old in
       let is_new := match new with Some _ => obytes_eqb observed new | None => complete_new end in
